@@ -60,6 +60,8 @@ impl Stats {
 pub struct SnapView {
     pub points: Vec<Option<Vec<u8>>>,
     pub scan: Vec<(Key, Vec<u8>)>,
+    /// prefix scan (first byte of the middle pool key), consumed from the back
+    pub pscan: Vec<(Key, Vec<u8>)>,
 }
 
 pub struct Snap {
@@ -148,6 +150,8 @@ pub struct Exec {
     /// model states an interrupted multi-step op may legitimately leave behind (C05): set by the
     /// last op, e.g. ingestion = flush of the memtables, then publication of the batch
     pub mid_models: Vec<Model>,
+    /// a version was installed since the last full point audit (big pools are sampled otherwise)
+    pub layout_changed: bool,
 }
 
 pub fn resolve_bound(keys: &[Key], b: &BoundSpec) -> Bound<Key> {
@@ -277,6 +281,7 @@ impl Exec {
             max_snaps: 6,
             clock_secs: 0,
             mid_models: vec![],
+            layout_changed: true,
         }
     }
 
@@ -455,6 +460,9 @@ impl Exec {
         let n = after - before;
         self.installs += n;
         if n > 0 {
+            self.layout_changed = true;
+        }
+        if n > 0 {
             self.stats.bump(&format!("installs.{name}"));
         }
         Ok(n)
@@ -501,6 +509,7 @@ impl Exec {
             // once; match against the values as they were before this compaction
             let shown = ws.iter().rev().find(|w| {
                 !used.contains(&(c.key.clone(), w.seqno))
+                    && w.loc == Loc::Durable
                     && matches!(self.model.effective_kind(&c.key, w, v), Kind::Val(ref x) if x == &c.value)
             });
             let Some(shown) = shown else {
@@ -610,6 +619,38 @@ impl Exec {
                     }
                     self.visible.fetch_max(s + 1);
                     self.stats.bump("w.batch");
+                }
+            }
+            Op::Fill {
+                start,
+                n,
+                len,
+                del,
+                one_seqno,
+            } => {
+                let first = key_index(*start, self.keys.len());
+                let last = (first + *n as usize).min(self.keys.len());
+                let kind = if *del { WKind::Del } else { WKind::Put(*len) };
+                let mut s_all: Option<SeqNo> = None;
+                for kidx in first..last {
+                    if let Some(kind) = self.admit(kidx, &kind) {
+                        let s = if *one_seqno {
+                            *s_all.get_or_insert_with(|| self.seqno.next())
+                        } else {
+                            self.seqno.next()
+                        };
+                        self.apply_write(kidx, kind, s);
+                        if !*one_seqno {
+                            self.visible.fetch_max(s + 1);
+                        }
+                    }
+                }
+                if let Some(s) = s_all {
+                    self.visible.fetch_max(s + 1);
+                }
+                self.stats.bump("w.fill");
+                if last - first > 254 {
+                    self.stats.bump("w.fill_over254");
                 }
             }
             Op::Rotate => {
@@ -980,6 +1021,7 @@ impl Exec {
         self.model.reopen(restart);
         self.last_wm = 0;
         self.installs_at_open = self.installs;
+        self.layout_changed = true;
         self.reopen_count += 1;
         self.stats.bump("m.reopen");
         // C04 extras
@@ -1064,6 +1106,7 @@ impl Exec {
         let after = self.seqno.get();
         r.map_err(|e| format!("ingestion finish returned Err: {e:?}"))?;
         self.installs += after - before;
+        self.layout_changed = true;
         let d = after - before;
         if d == 0 {
             // nothing was published (a standard tree returns early on an empty batch)
